@@ -411,6 +411,89 @@ fn run_batch(base: u64, runs: u64, workers: u64, max_secs: u64) -> Batch {
     b
 }
 
+
+// ------------------------------------------------------------------ lane B3: Miri
+#[derive(Serialize, Deserialize, Clone, Debug)]
+struct MiriReplay {
+    engine: String,
+    property: String,
+    scenario: usize,
+    miri_seed: u64,
+    kind: String,
+    excerpt: String,
+}
+
+struct MiriOutcome {
+    ok_runs: u64,
+    /// (scenario, failing seed, kind, excerpt) - kind: race | result | other
+    failures: Vec<(usize, u64, String, String)>,
+    unavailable: Option<String>,
+    wall_s: f64,
+}
+
+fn miri_flags(extra: &str) -> String {
+    // tree borrows: the `pretty` dependency's arena trips Stacked Borrows in purely sequential code
+    // (not typstyle code and unrelated to C17); data-race detection is unaffected
+    format!("-Zmiri-preemption-rate=0.1 -Zmiri-tree-borrows {}", extra)
+}
+
+fn run_miri(scenario: usize, flags: &str) -> Result<String, String> {
+    let dir = verif_dir().join("miri-lane");
+    let out = Command::new("cargo")
+        .args(["+nightly", "miri", "run", "--offline", "--", &scenario.to_string()])
+        .current_dir(&dir)
+        .env("MIRIFLAGS", flags)
+        .env("CARGO_TARGET_DIR", verif_dir().join(".target/miri"))
+        .env("CARGO_NET_OFFLINE", "true")
+        .env_remove("RUSTFLAGS")
+        .env_remove("LD_PRELOAD")
+        .output()
+        .map_err(|e| format!("cannot run cargo miri: {e}"))?;
+    Ok(format!("{}\n{}", String::from_utf8_lossy(&out.stdout), String::from_utf8_lossy(&out.stderr)))
+}
+
+fn classify_miri(text: &str) -> Option<(String, String)> {
+    let line = |pat: &str| text.lines().find(|l| l.contains(pat)).map(|l| l.trim().to_string());
+    if let Some(l) = line("Data race detected") {
+        return Some(("race".into(), l));
+    }
+    if let Some(l) = line("C17 violated under Miri") {
+        return Some(("result".into(), l));
+    }
+    if let Some(l) = line("error: Undefined Behavior").or_else(|| line("error: unsupported operation")).or_else(|| line("panicked at")) {
+        return Some(("other".into(), l));
+    }
+    None
+}
+
+fn miri_lane(seeds_per_scenario: u64, scenarios: usize) -> MiriOutcome {
+    let start = Instant::now();
+    let mut o = MiriOutcome { ok_runs: 0, failures: vec![], unavailable: None, wall_s: 0.0 };
+    for sc in 0..scenarios {
+        let text = match run_miri(sc, &miri_flags(&format!("-Zmiri-many-seeds=0..{}", seeds_per_scenario))) {
+            Ok(t) => t,
+            Err(e) => {
+                o.unavailable = Some(e);
+                break;
+            }
+        };
+        let ok = text.lines().filter(|l| l.contains("miri-lane scenario") && l.trim_end().ends_with("ok")).count() as u64;
+        o.ok_runs += ok;
+        let failing_seed = text.lines().find_map(|l| l.trim().strip_prefix("FAILING SEED: ").and_then(|x| x.trim().parse::<u64>().ok()));
+        match (failing_seed, classify_miri(&text)) {
+            (Some(seed), Some((kind, ex))) => o.failures.push((sc, seed, kind, ex)),
+            (Some(seed), None) => o.failures.push((sc, seed, "other".into(), "unclassified Miri failure".into())),
+            (None, _) if ok == 0 => {
+                o.unavailable = Some(format!("the Miri lane produced no result for scenario {} (build problem?): {}", sc, vsim::util::excerpt(text.lines().filter(|l| l.starts_with("error")).collect::<Vec<_>>().join(" | ").as_bytes(), 300)));
+                break;
+            }
+            _ => {}
+        }
+    }
+    o.wall_s = start.elapsed().as_secs_f64();
+    o
+}
+
 fn cmd_run(args: &[String]) -> i32 {
     let tier = arg_value(args, "--tier").unwrap_or_else(|| std::env::var("VERIF_TIER").unwrap_or_else(|_| "quick".into()));
     let base = vsim::util::env_u64("VERIF_SEED").unwrap_or(DEFAULT_SEED);
@@ -429,7 +512,7 @@ fn cmd_run(args: &[String]) -> i32 {
         groups.entry(f.violation.invariant.clone()).or_default().push(f);
     }
     let mut violations = 0;
-    let mut reported = Vec::new();
+    let mut reported: Vec<serde_json::Value> = Vec::new();
     let exe = std::env::current_exe().unwrap();
     for (invariant, fs) in &groups {
         let f = fs.iter().min_by_key(|f| serde_json::to_string(&f.scenario).map(|s| s.len()).unwrap_or(0)).unwrap();
@@ -452,6 +535,42 @@ fn cmd_run(args: &[String]) -> i32 {
         println!("  invariant {}: {}", v.invariant, v.message);
         println!("  seed={} threads={} calls={} prefix_runs={} ({} failing runs in this group)", sc.seed, sc.threads.len(), sc.threads.iter().map(|t| t.len()).sum::<usize>(), prefix.len(), fs.len());
         reported.push(json!({"invariant": v.invariant, "message": v.message, "replay": path}));
+    }
+
+    // ---- lane B3 (thorough tier, or on request): Miri many-seeds
+    let miri_seeds: u64 = arg_value(args, "--miri-seeds").and_then(|x| x.parse().ok()).unwrap_or(if tier == "thorough" { 16 } else { 0 });
+    let mut miri_json = json!({"run": false, "note": "lane B3 runs in the thorough tier only (./check C17 thorough, or --miri-seeds N)"});
+    if miri_seeds > 0 {
+        let m = miri_lane(miri_seeds, 3);
+        let mut m_reported = Vec::new();
+        for (sc, seed, kind, ex) in &m.failures {
+            if kind == "other" {
+                continue; // UB or a panic that is neither a data race nor a result mismatch: not C17's verdict
+            }
+            let dir = verif_dir().join("replays");
+            let _ = std::fs::create_dir_all(&dir);
+            let path = dir.join(format!("C17-V17.5-miri-{}-s{}-seed{}.json", kind, sc, seed));
+            let rp = MiriReplay { engine: "miri".into(), property: "C17".into(), scenario: *sc, miri_seed: *seed, kind: kind.clone(), excerpt: ex.clone() };
+            let _ = std::fs::write(&path, serde_json::to_string_pretty(&rp).unwrap());
+            violations += 1;
+            println!("VIOLATION property=C17 replay={}", path.display());
+            println!("  invariant V17.5-miri-{}: scenario {} under Miri seed {}: {}", kind, sc, seed, ex);
+            m_reported.push(json!({"scenario": sc, "miri_seed": seed, "kind": kind, "excerpt": ex}));
+        }
+        if let Some(u) = &m.unavailable {
+            eprintln!("WARNING: Miri lane unavailable: {}", u);
+        }
+        miri_json = json!({
+            "run": true,
+            "seeds_per_scenario": miri_seeds,
+            "scenarios": 3,
+            "executions_ok": m.ok_runs,
+            "failures_reported": m_reported,
+            "other_miri_findings(not a C17 verdict)": m.failures.iter().filter(|f| f.2 == "other").map(|f| format!("scenario {} seed {}: {}", f.0, f.1, f.3)).collect::<Vec<_>>(),
+            "unavailable": m.unavailable,
+            "flags": miri_flags("-Zmiri-many-seeds=0..N"),
+            "wall_s": m.wall_s,
+        });
     }
 
     let wall = start.elapsed().as_secs_f64();
@@ -496,6 +615,7 @@ fn cmd_run(args: &[String]) -> i32 {
             "determinism": {"seeds_rerun_in_process": st.rerun_checked, "schedule_log_mismatches": st.rerun_log_mismatch, "baton_takeovers(real lock suspected)": st.takeovers},
             "observations": {"calls_whose_step_count_differs_between_two_executions": st.step_count_differs_from_solo},
             "reported": reported,
+            "lane_B3_miri": miri_json,
             "harness_errors": st.errors.iter().chain(b.worker_failures.iter()).take(10).collect::<Vec<_>>(),
             "real_vs_stub": {
                 "real": ["typstyle-core and typst-syntax from /repo (built with --cfg typstyle_verif)", "OS threads, thread-locals, allocator, atomics"],
@@ -545,6 +665,27 @@ fn cmd_replay(args: &[String]) -> i32 {
         eprintln!("cannot read {path}");
         return 2;
     };
+    if let Ok(mr) = serde_json::from_str::<MiriReplay>(&text) {
+        if mr.engine == "miri" {
+            return match run_miri(mr.scenario, &miri_flags(&format!("-Zmiri-seed={}", mr.miri_seed))) {
+                Ok(t) => match classify_miri(&t) {
+                    Some((kind, ex)) if kind != "other" => {
+                        println!("VIOLATION property=C17 replay={}", path);
+                        println!("  invariant V17.5-miri-{}: {}", kind, ex);
+                        1
+                    }
+                    _ => {
+                        println!("replay: the recorded Miri failure did not reproduce on this tree");
+                        0
+                    }
+                },
+                Err(e) => {
+                    eprintln!("HARNESS-ERROR: {e}");
+                    2
+                }
+            };
+        }
+    }
     let rp: Replay17 = match serde_json::from_str(&text) {
         Ok(r) => r,
         Err(e) => {
